@@ -14,13 +14,17 @@ THEOREMS = [
     "Mesa.Cont.C10_legacy_positions_inside",
     "Mesa.Cont.C10_legacy_cache_coherent",
     "Mesa.Cont.C10_exp_positions_all_histories",
+    "Mesa.Cont.C10_exp_frame",
     "Mesa.Cont.C10_exp_index_maps_consistent",
     "Mesa.Cont.C10_exp_positions_inside",
     "Mesa.Cont.C10_legacy_neighbors_exact",
     "Mesa.Cont.C10_legacy_neighbors_mem",
     "Mesa.Cont.C10_exp_radius_exact",
     "Mesa.Cont.C10_exp_distances_exact",
+    "Mesa.Cont.C10_exp_subset_queries_exact",
+    "Mesa.Cont.C10_exp_neighbors_in_radius",
     "Mesa.Cont.C10_exp_k_nearest",
+    "Mesa.Cont.C10_exp_nearest_neighbors",
     "Mesa.Cont.C10_exp_k_nearest_range",
     "Mesa.Cont.C10_argsortPart_spec",
     "Mesa.Cont.C10_torus_axis_is_nearest_image",
@@ -29,6 +33,7 @@ THEOREMS = [
     "Mesa.Cont.C10_legacy_heading_length",
     "Mesa.Cont.C10_exp_distance_symmetric",
     "Mesa.Cont.C10_exp_difference_length",
+    "Mesa.Cont.C10_exp_difference_rows_length",
     "Mesa.Cont.C18_cont_place_reject_unchanged",
     "Mesa.Cont.C18_cont_move_reject_unchanged",
     "Mesa.Cont.C18_cont_remove_reject_unchanged",
@@ -36,7 +41,7 @@ THEOREMS = [
     "Mesa.Cont.C18_cont_legacy_rejected_call_erasable",
     "Mesa.Cont.C18_cont_exp_rejected_call_erasable",
 ]
-COUNTS = {"quick": 3000, "thorough": 60000}
+COUNTS = {"quick": 6000, "thorough": 240000}
 TRUSTED = [
     "coordinates/radii are ints in units of 1/64 of small magnitude: every + - * % abs min <= the code performs on them is exact in binary64; IEEE rounding of other floats is not modelled",
     "math.sqrt / np.sqrt / scipy cdist(euclidean) return the correctly rounded square root of the exactly computed sum of squares (the harness inverts it exactly and re-checks sqrt(N)/64 == d); `distances <= radius` is then equivalent to the exact comparison of squares",
